@@ -117,7 +117,8 @@ def run_tlc_mc(module, cfg, workers=8, timeout=900, xmx="12g", tag=None, simulat
     tag = tag or os.path.splitext(cfg)[0]
     meta = os.path.join(WORK, "tlc", tag)
     shutil.rmtree(meta, ignore_errors=True)
-    cmd = ["java", "-XX:+UseParallelGC", f"-Xmx{xmx}", "-cp", CP, "tlc2.TLC", "-workers", str(workers),
+    os.makedirs(meta + ".tmp", exist_ok=True)    # TLC leaves an empty tlc-* directory per run in java.io.tmpdir
+    cmd = ["java", "-XX:+UseParallelGC", f"-Xmx{xmx}", f"-Djava.io.tmpdir={meta}.tmp", "-cp", CP, "tlc2.TLC", "-workers", str(workers),
            "-metadir", meta, "-cleanup", "-noGenerateSpecTE", "-config", cfg]
     if simulate:
         cmd += ["-simulate", simulate]
@@ -131,6 +132,7 @@ def run_tlc_mc(module, cfg, workers=8, timeout=900, xmx="12g", tag=None, simulat
     r["timeout"] = rc == 124
     r["tail"] = out[-1500:]
     shutil.rmtree(meta, ignore_errors=True)
+    shutil.rmtree(meta + ".tmp", ignore_errors=True)
     return r
 
 
@@ -194,7 +196,8 @@ def validate_shard(module, cfg, shard, xmx="3g", timeout=1800):
     tag = "tv_" + hashlib.md5(shard.encode()).hexdigest()[:10]
     meta = os.path.join(WORK, "tlc", tag)
     shutil.rmtree(meta, ignore_errors=True)
-    cmd = ["java", "-XX:+UseParallelGC", f"-Xmx{xmx}", "-cp", CP, "tlc2.TLC", "-workers", "1",
+    os.makedirs(meta + ".tmp", exist_ok=True)
+    cmd = ["java", "-XX:+UseParallelGC", f"-Xmx{xmx}", f"-Djava.io.tmpdir={meta}.tmp", "-cp", CP, "tlc2.TLC", "-workers", "1",
            "-metadir", meta, "-cleanup", "-noGenerateSpecTE", "-config", cfg, module + ".tla"]
     t0 = time.time()
     rc, out = sh(cmd, timeout=timeout, cwd=SPEC,
@@ -205,6 +208,7 @@ def validate_shard(module, cfg, shard, xmx="3g", timeout=1800):
     r["shard"] = shard
     r["tail"] = out[-1200:]
     shutil.rmtree(meta, ignore_errors=True)
+    shutil.rmtree(meta + ".tmp", ignore_errors=True)
     return r
 
 
